@@ -77,8 +77,13 @@ def make(rng, shape, json_layer):
          "childiter": rng.choice(["list", "list", "reversed", "first2"]),
          "dictcls": rng.choice([None, "ordered"]),
          "defaults": rng.random() < 0.3}
-    if cls == "node" and c["attriter"] == "drop_a":
-        pass
+    # start node: the root, or some inner node (a random walk down the shape)
+    addr, sh = [], shape
+    while sh and rng.random() < 0.4:
+        i = rng.randrange(len(sh))
+        addr.append(i)
+        sh = sh[i]
+    c["start"] = addr
     if rng.random() < 0.5:
         c["data"] = rand_ddata(rng, 0, cls == "node")
     if json_layer:
